@@ -33,9 +33,9 @@ def applyRule (name : String) (b : Block) : Option (Option Block) :=
 
 def hypothesis (name : String) (b : Block) : Option Bool :=
   match name with
-  | "group_local_assignment" => some (Rules.GroupLocal.programOk b)
   | "remove_method_call" => some (Rules.RemoveMethodCall.receiversStable b)
-  | "convert_local_function_to_assign" | "convert_function_to_assignment" | "convert_square_root_call" => some true
+  | "group_local_assignment" | "convert_local_function_to_assign" | "convert_function_to_assignment"
+  | "convert_square_root_call" => some true
   | _ => none
 
 def boolTok (b : Bool) : String := if b then "true" else "false"
